@@ -70,7 +70,7 @@ func getValues(script string, terms []string, cfg SolverCfg, name string) (map[s
 	}
 	file := writeFile(cfg.WorkDir, name+".smt2", b.String())
 	for _, sd := range solvers[:2] {
-		out, _ := runSolver(sd, file, 20000, 30*time.Second)
+		out, _ := runSolver(sd, file, 5000, 8*time.Second)
 		rs := parseResults(out)
 		if len(rs) == 0 || rs[0] != "sat" {
 			continue
@@ -209,7 +209,7 @@ type replayBuilder struct {
 
 func (rb *replayBuilder) query(terms []string) (map[string]string, bool) {
 	rb.nq++
-	if rb.nq > 60 || time.Since(rb.t0) > 90*time.Second {
+	if rb.nq > 40 || time.Since(rb.t0) > 45*time.Second {
 		rb.fail = "replay budget exhausted (inputs too large to extract from the model)"
 		return nil, false
 	}
